@@ -120,8 +120,13 @@ Example C34_memo_dropped_dependency :
     = [Some 12; Some 12]%nat
   /\ map (uncached conv (fun r v => v)) [(1, 10); (1, 7)]%nat = [Some 12; Some 9]%nat.
 Proof. split; reflexivity. Qed.
-Example C34_reloc_flat_example : reloc_example_negative = reloc_example_negative.
-Proof. reflexivity. Qed.
+Example C34_reloc_negative_and_wrapping_delta :
+  let s := SSeq (SAssign (Ff 16) 24 (EBin 1 (EVar (Comb 8)) (EVarSel (Ff 32) (EVar (Comb 12)))))
+           (SSeq (SCompiled 3 0 0 [Comb 8] [Ff 16] [16] (SAssign (Ff 16) 24 (EVar (Comb 8)))) SSkip) in
+  flat s = true /\
+  bind_stmt 1000 2000 (reloc_stmts (-16) (-8) s) = bind_stmt 984 1992 s /\
+  bind_stmt 8 0 (reloc_stmts (-16) (2 ^ 63 - 1) s) = bind_stmt (2 ^ 64 - 8) (2 ^ 63 - 1) s.
+Proof. exact reloc_example_negative. Qed.
 Example C34_reloc_needs_flat :
   let s := SIf (EVal 1) (SCompiled 7 0 0 [] [] [] SSkip) SSkip in
   flat s = false /\
